@@ -70,6 +70,12 @@ func NewC04(d *Driver) *C04 {
 		lastDur: map[core.TractID]curator.VerifTractState{}, prev: map[int]map[core.TractID]c04Rep{}, tasks: map[int]*c04Task{},
 		W: C04Weights{Corrupt: 5, Delete: 4, Scrub: 8, Beat: 8, Check: 5, Health: 2, Detect: 8, Pop: 14, Hopeless: 2}}
 	d.Extra = c.extra
+	// a tractserver that died inside PullTract (StepCrashPull) reads nothing from further sources: without this
+	// the "dead" callee would go on to the next source and a damaged source would record a failure for a
+	// read that never happened
+	d.Cl.NestedFail = func(from, to int, id core.TractID, version int) bool {
+		return from > 0 && from < len(d.Cl.TS) && d.Cl.TS[from].Crashed()
+	}
 	c.ensure()
 	return c
 }
